@@ -46,7 +46,7 @@ def filter_profile(pid, r):
     opts = gen.random_opts(r)
     if cfg["g90e"]:
         opts["rel"] = False
-    if pid in ("C01", "C03") and r.random() < 0.5:
+    if pid in ("C01", "C03", "C02") and r.random() < 0.5:
         opts["arcs"] = True         # arcs are where "every sampled point" matters
     if pid == "C02" and r.random() < 0.5:
         opts["at"] = True           # disable / enable windows: the position must keep being tracked
@@ -181,6 +181,16 @@ def search_filter(pid, r, n, stats):
                 "G28", "G1 X5 Y5 Z0.2 F3000", "G1 X6 Y5 E1", "G1 X15 Y15", "G10" if fw else "G1 E0 F1800",
                 "G1 X30 Y30", second, "G11" if fw else "G1 E1 F1800", "G1 X%s E2" % ("45 Y43" if "44" in second else "13 Y18"),
                 "G10" if fw else "G1 E1 F1800", "G1 X30 Y31", "G11" if fw else "G1 E2 F1800", "G1 X31 Y31 E3", "G1 X32 Y31 E4"]]
+        if pid == "C02" and r.random() < 0.08:
+            # arcs that stay clear of the region: a centre straight above / below the start (I = 0), then
+            # a one-axis move that relies on the tracked end point; a short sweep about a far centre
+            cfg = dict(cfg, regions=[("R", "a", 10.0, 10.0, 20.0, 20.0)])
+            evs = [("g", c) for c in r.choice([
+                ["G28", "G1 X30 Y15 F3000", "G3 X30 Y35 J10 E4", "G1 X15", "G1 X40 Y40 E5"],
+                ["G28", "G1 X30 Y15 F3000", "G2 X30 Y-5 J-10", "G1 X15 E1", "G1 X40 Y40 E2"],
+                ["G28", "G1 X30 Y2 F3000", "G2 X25 Y3 I0 J13 E1", "G1 X40 Y40 E2"],
+                ["G28", "G1 X2 Y30 F3000", "G3 X3 Y25 I13 J0 E1", "G1 X40 Y40 E2"],
+                ["G28", "G1 X15 Y30 F3000", "G2 X35 Y30 I10", "G1 Y15", "G1 X40 Y40 E2"]])]
         if pid == "C07" and r.random() < 0.3:
             # tracked values far outside repr's plain range end up in the exit / recovery commands
             evs = c07_extreme_program(r, cfg)
@@ -435,6 +445,17 @@ def search_c17(pid, r, n, stats):
         a = suites.rand_region_spec(r, "a")
         b = suites.rand_region_spec(r, "a" if r.random() < 0.3 else "b")     # an update re-uses the id
         x, y = suites.rand_coord(r), suites.rand_coord(r)
+        if r.random() < 0.3:
+            # corners as a user types them (one decimal), any order
+            a = ("R", "a") + tuple(round(r.uniform(0, 60), 1) for _k in range(4))
+        if a[0] == "R" and r.random() < 0.6:
+            # probe the edges and corners as given to the constructor, and the floats next to them
+            x = r.choice([a[2], a[4], x])
+            y = r.choice([a[3], a[5], (a[3] + a[5]) / 2, y])
+            if r.random() < 0.3:
+                x = math.nextafter(x, r.choice([-math.inf, math.inf]))
+            if r.random() < 0.3:
+                y = math.nextafter(y, r.choice([-math.inf, math.inf]))
         stats["evaluations"] += 1
         stats["nontrivial"].add(zlib.crc32(repr((a, b, x, y)).encode()))
         v = oracle_geo.c17_point(a, x, y)
